@@ -528,7 +528,7 @@ def r4_r5_r7_load(ctx, R4="C02.R4", R5="C02.R5", R7="C02.R7") -> None:
                 t_ = u(e)
                 if t_ == idxv:
                     return _lin.Lin.sym("I")
-                if t_ in (f"len({sname}.metadata)", f"len({sname}.metadata or ())", f"len({sname}.metadata or [])"):
+                if t_ in (f"len({sname}.metadata)", f"len({sname}.metadata or ())", f"len({sname}.metadata or [])", f"len({sname}.metadata) if {sname}.metadata else 0"):
                     return _lin.Lin.sym("L")
                 return None
             tests_ = [(ast.parse(_uo(t), mode="eval").body if isinstance(_uo(t), str) else _uo(t), k) for t, k in p.tests]
